@@ -1,8 +1,9 @@
 (* C10, the part that can be stated of the SOURCE AS IT IS NOW: the steps of a history that READ the document (resolve,
    and the parent walk of delete / the write-through of resolve_mut) go through the four walks re-translated from
    src/resolve.rs on every run (Generated/ScanTree.v); `expand`, which materialises what an assign creates, is
-   re-translated from src/assign.rs.  (assign_value / assign_array / assign_object / assign_scalar and delete mutate
-   through `&mut Value`: hand-written model + per-run differential tie, Properties/C10.v.) *)
+   re-translated from src/assign.rs.  The steps that WRITE (assign_value / assign_array / assign_object / assign_scalar,
+   delete, and writing through resolve_mut) are re-translated in lens mode (Generated/ScanTreeMut.v): the second part of this
+   file is the history theorem of the regenerated source itself. *)
 From JP Require Import Bytes Spec Value GenPrelude GenTreePrelude Model.Tree SpecTree Generated.ScanTypes Generated.ScanTree
   Proofs.GenEquivBase Proofs.GenEquivTree.
 
@@ -44,3 +45,38 @@ Example C10_src_examples :
   gen_json_resolve_mut (Obj [([97], Arr [VInt 1; VInt 2])]) [47; 97; 47; 49] = Ret (Ok (VInt 2)) /\
   gen_json_expand [47; 97; 47; 45] (VInt 7) = Ret (Obj [([97], Arr [VInt 7])]).
 Proof. vm_compute. repeat split. Qed.
+
+(* ==== histories of the regenerated source (DESIGN 13.8) ================================================================== *)
+From JP Require Import Model.Pointer SpecHist Proofs.HistoryProofs Generated.ScanTreeMut Proofs.GenEquivTreeMut Proofs.GenClosureMut.
+
+(* [gen_tree_run] folds the functions re-translated from the CURRENT source (assign, delete, resolve, write through
+   resolve_mut; each applied to `&mut doc`) over a history.  From every real document, after any finite sequence of
+   operations with valid pointers, the document is the reference tree's and every call returned what the reference returns *)
+Theorem C10_src_history_refines : forall (be : backend) (ops : list tree_op) (d : value),
+  sorted_value d -> Forall op_values_sorted ops -> Forall op_valid ops ->
+  gen_tree_run be d ops = Ret (fst (spec_tree_run be d ops), map forget_out (snd (spec_tree_run be d ops))).
+Proof. exact gen_history_refines. Qed.
+Print Assumptions C10_src_history_refines.
+
+Theorem C10_src_history_no_panic : forall (be : backend) (ops : list tree_op) (d : value),
+  sorted_value d -> Forall op_values_sorted ops -> Forall op_valid ops ->
+  gen_tree_run be d ops <> Panic /\ gen_tree_run be d ops <> OutOfFuel.
+Proof. exact gen_history_no_panic. Qed.
+Print Assumptions C10_src_history_no_panic.
+
+(* one step of the regenerated source is one step of the hand-written model, whatever the pointer text *)
+Theorem C10_src_step_is_model : forall (be : backend) (d : value) (o : tree_op), sorted_value d ->
+  gen_tree_step be d o = omap (fun x => (fst x, forget_out (snd x))) (impl_tree_step be d o).
+Proof. exact gen_step_is_model. Qed.
+Print Assumptions C10_src_step_is_model.
+
+(* the history of Properties/C10.v, run on the regenerated source *)
+Example C10_src_history_example :
+  let a := [47; 97] in
+  gen_tree_run Json (Obj [])
+    [OAssign (a ++ [47; 45]) (VInt 1); OAssign (a ++ [47; 45]) (VInt 2); ODelete (a ++ [47; 48]);
+     OResolve (a ++ [47; 48]); ODelete (a ++ [47; 53]); OAssign (a ++ [47; 55]) (VInt 0); OWrite (a ++ [47; 48]) (VInt 9)] =
+  Ret (Obj [([97], Arr [VInt 9])],
+       [GAssign (Ok None); GAssign (Ok None); GDelete (Some (VInt 1));
+        GResolve (Ok (VInt 2)); GDelete None; GAssign (Err (AOutOfBounds 1 2 1 7)); GWrite (Ok tt)]).
+Proof. vm_compute. reflexivity. Qed.
